@@ -2503,6 +2503,13 @@ class BSP:
         cluster_count = len(vis.potentially_visible)
         if cluster_count != len(vis.potentially_audible):
             raise ValueError('Inconsistent PVS/PAS lengths!')
+        # The rows are not stored with a length, the reader decodes one bit per cluster.
+        row_size = math.ceil(cluster_count / 8)
+        for row in itertools.chain(vis.potentially_visible, vis.potentially_audible):
+            if len(row) != row_size:
+                raise ValueError(
+                    f'Visibility rows for {cluster_count} clusters must be {row_size} bytes long, not {len(row)}!'
+                )
 
         data = BytesIO()
         writes = DeferredWrites(data)
